@@ -157,7 +157,10 @@ def generate(rng, tier):
     for mode, ops in blocks:
         ks = range(len(ops) + 1) if tier == "thorough" or len(ops) <= 5 else sorted(set([0, len(ops)] + rng.sample(list(range(1, len(ops))), 3)))
         for k in ks:
-            fault = mode != "r" and rng.chance(6)
+            # the injected I/O error hits the final save of the block's exit only; the model's close_fault is a constant of the
+            # run, so blocks that close earlier (inner close / a fetch_active_workspace that re-opens) are not given a fault
+            closes_inside = any(o["op"] in ("close", "fetch_active") for o in ops[:k])
+            fault = rng.chance(6) and mode != "r" and not closes_inside
             cases.append({"kind": "with", "mode": mode, "ops": ops, "k": k, "fault": fault})
     cases.append({"kind": "with", "mode": "r+", "ops": fixed[0], "k": 2, "fault": True})
     # exceptions escaping fetch_active_workspace blocks: every starting state x every requested mode x {raise, normal}
